@@ -132,6 +132,25 @@ def rest_scope_histories():
     return out
 
 
+def rename_histories():
+    """use a nested path, rename (or remove and re-create) one of its ancestors or itself, use the old and the new names"""
+    touch = ["MLST d/f", "CWD d", "RNFR d/f", "DELE nope", "MLST d", "T:RETR d/f", "T:LIST d", "T:STOR d/n"]
+    after = ["MLST d/f", "MLST e/f", "CWD d", "CWD e", "DELE d/f", "DELE e/f", "T:RETR d/f", "T:RETR e/f", "T:LIST e",
+             "T:LIST d", "MKD d", "RMD d", "T:STOR d/x", "MLST d", "MLST e", "PWD"]
+    out = []
+    for t in touch:
+        for a in after:
+            for change in (["RNFR d", "RNTO e"], ["RNFR d/f", "RNTO d/g"], ["DELE d/f", "RMD d", "MKD d"], ["RNFR g", "RNTO d/g2"]):
+                h = ["USER anonymous", "EPSV"]
+                for sym in [t] + change + [a]:
+                    if sym.startswith("T:"):
+                        h += ["@data", sym[2:]]
+                    else:
+                        h.append(sym)
+                out.append(h)
+    return out
+
+
 def late_histories():
     """a transfer verb sent before its data connection exists, any harmless command in between, then the connection"""
     from vf.conform import LATE_MID
@@ -155,7 +174,10 @@ def run(tier, seed, t0):
         parts.append(sweep_hist("memory", rest_scope_histories(), "rest-scope"))
         parts.append(sweep("memory", [], LOGINS, 4))       # every login history of length 4 (a limited user re-logging in)
         parts.append(sweep_hist("memory", late_histories(), "late-data"))
+        parts.append(sweep_hist("memory", rename_histories(), "rename-ancestor"))
     else:
+        parts.append(sweep_hist("memory", rename_histories(), "rename-ancestor"))
+        parts.append(sweep_hist("pathio", rename_histories(), "rename-ancestor"))
         parts.append(sweep_hist("memory", late_histories(), "late-data"))
         parts.append(sweep_hist("pathio", late_histories(), "late-data"))
         parts.append(sweep("memory", [], LOGINS, 5))
